@@ -233,6 +233,14 @@ func init() {
 	reg(rt+"StrContains", func(ex *Exec, fn *ssa.Function, args []Value, site string) Value {
 		return lower(mkContains(strTerm(args[0]), strTerm(args[1])))
 	})
+	reg(rt+"StrEqualFold", func(ex *Exec, fn *ssa.Function, args []Value, site string) Value {
+		a, aok := args[0].(string)
+		b, bok := args[1].(string)
+		if aok && bok {
+			return strings.EqualFold(a, b)
+		}
+		return lower(mkEq(mkStrOp("str.to_lower", SStr, strTerm(args[0])), mkStrOp("str.to_lower", SStr, strTerm(args[1]))))
+	})
 	reg(rt+"StrPlain", func(ex *Exec, fn *ssa.Function, args []Value, site string) Value {
 		// non-empty, lower-case letters only
 		if s, ok := args[0].(string); ok {
@@ -890,7 +898,8 @@ func init() {
 			}
 			return strings.Repeat(a, int(n))
 		}
-		panic(pathAbort{"unsupported: symbolic Repeat"})
+		// symbolic count: some string (only used for indentation, which the abstract JSON layer ignores)
+		return ex.freshVar("repeat", SStr, "string", false)
 	})
 }
 
